@@ -661,6 +661,8 @@ class SegmentWriter(IndexWriter):
         # tries to be efficient by merging per-doc and terms separately.
         # TODO: fix this!
 
+        from whoosh.reading import IndexReader
+
         schema = self.schema
         if reader.has_deletions():
             docmap = {}
@@ -674,7 +676,15 @@ class SegmentWriter(IndexWriter):
             fieldobj = schema[fieldname]
             coltype = fieldobj.column_type
             if coltype and reader.has_column(fieldname):
-                creader = reader.column_reader(fieldname, coltype)
+                if isinstance(reader, IndexReader):
+                    # We want the raw column values, not translated ones. (A
+                    # multi-segment reader returns a composite of the
+                    # per-segment readers, which the unwrapping below would
+                    # not see through.)
+                    creader = reader.column_reader(fieldname, coltype,
+                                                   translate=False)
+                else:
+                    creader = reader.column_reader(fieldname, coltype)
                 if isinstance(creader, columns.TranslatingColumnReader):
                     creader = creader.raw_column()
                 cols[fieldname] = creader
